@@ -19,6 +19,15 @@ inductive St
   | rejected (e : Nat)
   deriving DecidableEq, Repr
 
+/-- the value of a fulfilled core (what `core->value()` hands to a continuation); 0 when there is none -/
+def St.val : St → Int
+  | .fulfilled v => v
+  | _ => 0
+/-- the exception of a rejected core (`core->exc`); 0 (the null exception pointer) when there is none -/
+def St.exc : St → Nat
+  | .rejected e => e
+  | _ => 0
+
 /-- what a fulfilment callback returns -/
 inductive Ret
   | value (k : Int)       -- a value: its argument plus k   (derived promise is fulfilled with it)
@@ -143,7 +152,7 @@ def step (m : M) : M :=
         if r.rc ≥ 1 then m                                  -- Continuable::resolve guard
         else
           let m := m.setCore c (setReq k i { r with rc := r.rc + 1 })
-          let arg : Int := match k.st with | .fulfilled v => v | _ => 0
+          let arg : Int := k.st.val
           match r.kind with
           | .user cb ret _ =>
             let m := { m with log := m.log ++ [.call cb arg] }
@@ -171,7 +180,7 @@ def step (m : M) : M :=
         if r.jc ≥ 1 then m                                  -- Continuable::reject guard
         else
           let m := m.setCore c (setReq k i { r with jc := r.jc + 1 })
-          let e : Nat := match k.st with | .rejected e => e | _ => 0
+          let e : Nat := k.st.exc
           match r.kind with
           | .user _ ret rej =>
             match rej with
